@@ -336,8 +336,12 @@ class Session:
         self.client_hello_seen = True
 
     def handle_tls_server_hello(self, record: TlsRecord):
-        if self.client_hello_seen:
-            self.can_decrypt = True
+        if not self.client_hello_seen:
+            # the client random is unknown without the ClientHello, so no secrets can be looked up
+            logging.warning(f"ServerHello without preceding ClientHello, session cannot be decrypted")
+            return
+
+        self.can_decrypt = True
 
         self.server_random = record.binary[6: 38]
         logging.info(f"Server Random: {self.server_random.hex()}")
